@@ -2,6 +2,7 @@ package p2pkeswarm
 
 import (
 	"context"
+	"errors"
 	"runtime"
 	"time"
 
@@ -189,6 +190,10 @@ func (s *Swarm[T]) handleMessage(ctx context.Context, msg p2p.Message[T]) error 
 	if out != nil {
 		remoteKey := cs.Channel.RemoteKey()
 		srcID := s.config.fingerprinter(&remoteKey)
+		if !s.config.whitelist(Addr[T]{ID: srcID, Addr: msg.Src}) {
+			// the channel may have been created by an outbound Tell, which does not consult the whitelist
+			return errors.New("p2pkeswarm: dropping message from peer not in whitelist")
+		}
 		return s.hub.Deliver(ctx, p2p.Message[Addr[T]]{
 			Src:     Addr[T]{ID: srcID, Addr: msg.Src},
 			Dst:     Addr[T]{ID: s.localID, Addr: msg.Dst},
